@@ -68,7 +68,7 @@ func TestC10(t *testing.T) {
 var c11Cfg = GenCfg{
 	MinBlocks: 4, MaxBlocks: 24, MinOps: 8, MaxOps: 50,
 	W: map[string]int{"write": 30, "snap": 24, "remove": 16, "markrm": 8, "setcp": 6, "rmdirect": 4,
-		"reopen": 4, "revert": 2, "punch": 1, "mode": 2, "read": 2, "delpunch": 4},
+		"reopen": 4, "revert": 2, "punch": 1, "mode": 2, "read": 2, "delpunch": 4, "reuseseq": 2},
 	PunchStart: 40, MaxChainMin: 7, MaxChainMax: 12, AllowWO: true, DupNamePct: 20,
 }
 
@@ -87,7 +87,7 @@ func TestC11(t *testing.T) {
 var c12Cfg = GenCfg{
 	MinBlocks: 4, MaxBlocks: 12, MinOps: 5, MaxOps: 45,
 	W: map[string]int{"write": 14, "snap": 24, "remove": 8, "markrm": 8, "setcp": 6, "rmdirect": 8,
-		"reopen": 8, "reload": 2, "revert": 8, "mode": 4, "resize": 6, "orphanseq": 3},
+		"reopen": 8, "reload": 2, "revert": 8, "mode": 4, "resize": 6, "orphanseq": 3, "reuseseq": 3},
 	PunchStart: 20, MaxChainMin: 4, MaxChainMax: 8, DupNamePct: 25, AllowWO: true,
 }
 
